@@ -311,11 +311,20 @@ class Spec:
             sp.extra_checks.append(run)
             sp.assumptions.append("census: %s is called only from %s" % (method, expected))
 
+        def include(name):
+            """Execute another spec fragment (specs/<name>) in this spec's namespace (shared models)."""
+            import os as _os
+            pth = _os.path.join(_os.path.dirname(_os.path.dirname(_os.path.abspath(__file__))), "specs", name)
+            src = open(pth).read()
+            if re.search(r"^\s*(import|from)\s+z3\b", src, re.M):
+                raise RuntimeError("spec fragment %s uses the solver API directly" % name)
+            exec(compile(src, pth, "exec"), ns)
+
         ns = dict(cls=cls, ghost=ghost, assumed=assumed, verified=verified, target=target, loop=loop,
                   fold_sum=fold_sum, fold_all=fold_all, fold_cat=fold_cat, use_rev=use_rev, fold_unit=fold_unit, rev_hints=rev_hints, attr=attr, seq_lemma=seq_lemma, lemma=lemma,
                   exceptions=exceptions, attr_sort=attr_sort, const=const, assume_note=assume_note,
                   undecided=undecided, pure=pure, ufunc=ufunc, forall=forall, exists=exists,
-                  extra_check=extra_check, census=census, rx=re.compile, SPEC=sp)
+                  extra_check=extra_check, census=census, include=include, rx=re.compile, SPEC=sp)
         for k in ("INT BOOL STR BYTES NONE ANY Seq Tup Opt SetS MapS Opaque Enum Obj V If And Or Not Implies "
                   "Len In TRUE FALSE lift eq truthy mkset mapstore mapdel mapeq").split():
             ns[k] = getattr(S, k)
